@@ -31,7 +31,7 @@ F = ['sdc11073.mdib.providermdib.ProviderMdib._transaction_manager',
      'sdc11073.mdib.mdibbase.MultiStatesLookup.set_version', 'sdc11073.mdib.mdibbase.MdibBase.rm_descriptors_and_states',
      'sdc11073.mdib.mdibbase.EntityGetter._mk_entity', 'sdc11073.mdib.providermdib.ProviderEntityGetter.new_entity']
 SK = ['metric', 'alert', 'component', 'context_get', 'context_new', 'metric_entity', 'context_entity']
-OPS = ['none', 'update_descr', 'update_state', 'update_parent', 'create_child', 'remove_sibling', 'remove_self', 'remove_parent']
+OPS = ['none', 'update_descr', 'update_state', 'update_parent', 'create_child', 'remove_sibling', 'remove_self', 'remove_parent', 'remove_context_descriptor']
 IF = ['classic', 'entity']
 
 
@@ -42,10 +42,10 @@ def obligations(tier):
         obs.append(Ob(f'C02.state.{name}', 'harness.C02', 'state_tx', bind={'kind': kind}, timeout=t, functions=F, stubs=STUBS,
                       bounds='symbolic dv, sv, mv in N, str <= 2; empty / committed / aborted transaction (selector)',
                       claim='MdibVersion +1 iff committed; StateVersion +1; everything else untouched; integrity invariants hold'))
-    pairs = [(i, a, b) for i in range(2) for a in range(8) for b in range(8) if (a, b) != (0, 0)]
+    pairs = [(i, a, b) for i in range(2) for a in range(9) for b in range(9) if (a, b) != (0, 0)]
     if tier == 'quick':
         keep = {(1, 2), (3, 1), (1, 3), (4, 3), (3, 4), (5, 3), (3, 5), (6, 2), (4, 5), (0, 4), (6, 0), (1, 6), (5, 7), (7, 5),
-                (0, 7), (4, 7)}
+                (0, 7), (4, 7), (0, 8), (8, 1)}
         pairs = [(i, a, b) for (i, a, b) in pairs if (a, b) in keep]
     for i, a, b in pairs:
         obs.append(Ob(f'C02.descr.{IF[i]}.{OPS[a]}.{OPS[b]}', 'harness.C02', 'descr_tx', bind={'iface': i, 'op1': a, 'op2': b},
@@ -74,7 +74,7 @@ MANIFEST_ENTRY = {
     'technique': 'bounded symbolic execution (CrossHair/z3) of the real transaction code with symbolic version counters; '
                  'before/after version-map and content-snapshot oracle, case split per operation pair and interface',
     'text': 'Every path of each transaction shape is explored for ALL natural version counters ("Confirmed over all paths"); thorough '
-            'covers all 63 ordered operation pairs x 2 interfaces, quick a fixed subset of 32.',
+            'covers all 80 ordered operation pairs x 2 interfaces, quick a fixed subset of 36.',
     'note': 'Single-writer; MDIB content besides the counters is the concrete 13-descriptor kit; <= 2 operations per descriptor '
             'transaction; report XML not involved.',
 }
